@@ -68,6 +68,7 @@ static void t_collapse(const char *in, char *out, size_t cap)
 /* content of file id: identifies which files were applied (only_<id>), which came last (k) and the relative
  * order of every pair (pr_<a>_<b>), plus a key (e) that every second file sets to the empty value; placed group-less, in [S],
  * or both, depending on the id */
+static int t_opt_hollow;   /* the first drop-in name in the highest layer is a file without keys ("# disabled"): it still takes part in the same-name rule */
 static void t_build_contents(void)
 {
   ts.nfiles = ts.nlayers + ts.nlayers * ts.ncd * ts.nu;
@@ -98,8 +99,9 @@ static void t_build_contents(void)
       }
     }
     sbuf b = {0}; int ne = 0;
+    if (t_opt_hollow && cd >= 0 && l == ts.nlayers - 1 && n == 0) { sb_puts(&b, "# disabled by the administrator\n"); nb = 0; }
     if (t_kind[id] != 1) for (int i = 0; i < nb; i++) { t_ent[id][ne] = base[i]; t_ent[id][ne].g = NULL; ne++; sb_printf(&b, "%s=%s\n", base[i].k, base[i].v); }
-    if (t_kind[id] != 0) { sb_puts(&b, "[S]\n"); for (int i = 0; i < nb; i++) { t_ent[id][ne] = base[i]; t_ent[id][ne].g = "S"; ne++; sb_printf(&b, "%s=%s\n", base[i].k, base[i].v); } }
+    if (t_kind[id] != 0 && nb) { sb_puts(&b, "[S]\n"); for (int i = 0; i < nb; i++) { t_ent[id][ne] = base[i]; t_ent[id][ne].g = "S"; ne++; sb_printf(&b, "%s=%s\n", base[i].k, base[i].v); } }
     t_nent[id] = ne;
     t_content[id] = b.s;
   }
